@@ -1,6 +1,7 @@
 package main
 
 import (
+	"context"
 	"fmt"
 	"reflect"
 	"runtime"
@@ -11,6 +12,7 @@ import (
 	"github.com/zoumo/golib/lock/maxinflight"
 
 	proxyv1alpha1 "github.com/kubewharf/kubegateway/pkg/apis/proxy/v1alpha1"
+	"github.com/kubewharf/kubegateway/pkg/flowcontrols"
 	"github.com/kubewharf/kubegateway/pkg/flowcontrols/flowcontrol"
 
 	"verifharness/rig"
@@ -42,14 +44,13 @@ type StepObs struct {
 // worker = one managed goroutine: for ever { if TryAcquire() { Release() } }, blocked before every
 // shared-memory operation until the controller grants it one step.
 type worker struct {
-	resume chan struct{}
+	resume chan bool   // true: execute one operation; false (or closed): the schedule is over, exit
 	msgs   chan string // "at:<label>" or "ret:<admitted|rejected|released>"
 }
 
 type controller struct {
 	mu      sync.Mutex
 	current *worker
-	stop    int32
 }
 
 var ctl controller
@@ -60,8 +61,8 @@ func hook(label string) {
 		return // the configuring thread (Resize) and unmanaged goroutines pass through
 	}
 	w.msgs <- "at:" + label
-	<-w.resume
-	if atomic.LoadInt32(&ctl.stop) != 0 {
+	// the order to exit travels with the wake-up itself: a goroutine of a finished schedule can never run on
+	if !<-w.resume {
 		runtime.Goexit()
 	}
 }
@@ -104,7 +105,11 @@ type schedResult struct {
 	visited    []string
 }
 
-const stepTimeout = 10 * time.Second
+const stepTimeout = 60 * time.Second
+
+// set when a managed goroutine was lost (a step timed out twice): no further schedule is replayed, because a
+// lost goroutine could wake up inside a later schedule
+var schedBroken bool
 
 func runImplSched(s SchedCase) (res schedResult) {
 	ctl.mu.Lock()
@@ -119,18 +124,15 @@ func runImplSched(s SchedCase) (res schedResult) {
 		res.err = fmt.Sprintf("the max-in-flight limiter is a %T, not the atomic token bucket the model describes", tb)
 		return
 	}
-	atomic.StoreInt32(&ctl.stop, 0)
 	maxinflight.VerifHook = hook
 	workers := map[int]*worker{}
 	at := map[int]string{}
 	defer func() {
-		// terminate every managed goroutine (blocked at a point)
-		atomic.StoreInt32(&ctl.stop, 1)
-		for _, w := range workers {
-			ctl.current = w
-			w.resume <- struct{}{}
-		}
+		// terminate every managed goroutine (each is blocked at a point, waiting on its resume channel)
 		ctl.current = nil
+		for _, w := range workers {
+			close(w.resume)
+		}
 		maxinflight.VerifHook = nil
 	}()
 	// wait for the next "at" of w, collecting the return values reported on the way
@@ -148,7 +150,7 @@ func runImplSched(s SchedCase) (res schedResult) {
 		}
 	}
 	start := func(t int) bool {
-		w := &worker{resume: make(chan struct{}), msgs: make(chan string, 4)}
+		w := &worker{resume: make(chan bool), msgs: make(chan string, 4)}
 		workers[t] = w
 		ctl.current = w
 		go func() {
@@ -190,7 +192,7 @@ func runImplSched(s SchedCase) (res schedResult) {
 			loaded[ev.T] = mx
 		}
 		ctl.current = w
-		w.resume <- struct{}{}
+		w.resume <- true
 		l, ret, ok := await(w)
 		ctl.current = nil
 		if !ok {
@@ -224,7 +226,7 @@ func runImplSched(s SchedCase) (res schedResult) {
 		w := workers[t]
 		for guard := 0; at[t] != "TryAcquire.0" && guard < 16; guard++ {
 			ctl.current = w
-			w.resume <- struct{}{}
+			w.resume <- true
 			l, ret, ok := await(w)
 			ctl.current = nil
 			if !ok {
@@ -275,7 +277,16 @@ func runSched(c *rig.Ctx, s SchedCase, record bool) bool {
 		}
 		return false
 	}
+	if schedBroken {
+		return true
+	}
 	res := runImplSched(s)
+	if res.err != "" {
+		res = runImplSched(s) // once more: a stalled machine is not a verdict
+		if res.err != "" {
+			schedBroken = true
+		}
+	}
 	if !record {
 		for _, l := range res.visited {
 			c.Count("sched-reached:" + l)
@@ -423,6 +434,10 @@ type StressCase struct {
 	Iterations int    `json:"iterations"`
 	Limits     []int  `json:"limits"` // the limit is set to these values in turn while the goroutines run
 	Yield      bool   `json:"yield"`
+	// Full: through the whole stack (NewUpstreamLimiter, GetOrDefault per request) while a configuring goroutine
+	// Syncs resizes AND type changes / deletions / re-additions (a limit of -1 = token bucket, -2 = exempt,
+	// -3 = schema deleted); in flight is counted per limiter object handed out.
+	Full bool `json:"full,omitempty"`
 }
 
 func runStress(c *rig.Ctx, s StressCase, record bool) bool {
@@ -434,6 +449,9 @@ func runStress(c *rig.Ctx, s StressCase, record bool) bool {
 	}
 	if len(s.Limits) == 0 {
 		return true
+	}
+	if s.Full {
+		return runStressFull(c, s, record)
 	}
 	ctl.mu.Lock()
 	defer ctl.mu.Unlock()
@@ -515,6 +533,134 @@ func runStress(c *rig.Ctx, s StressCase, record bool) bool {
 	return true
 }
 
+func stressSpec(limit int) proxyv1alpha1.FlowControl {
+	sch := proxyv1alpha1.FlowControlSchema{Name: "s"}
+	switch {
+	case limit >= 0:
+		sch.MaxRequestsInflight = &proxyv1alpha1.MaxRequestsInflightFlowControlSchema{Max: int32(limit)}
+	case limit == -1:
+		sch.TokenBucket = &proxyv1alpha1.TokenBucketFlowControlSchema{QPS: 1000000, Burst: 1000000}
+	case limit == -2:
+		sch.Exempt = &proxyv1alpha1.ExemptFlowControlSchema{}
+	default:
+		return proxyv1alpha1.FlowControl{}
+	}
+	return proxyv1alpha1.FlowControl{Schemas: []proxyv1alpha1.FlowControlSchema{sch}}
+}
+
+// runStressFull: real goroutines handle requests the way the dispatcher does (one lookup, TryAcquire, Release on
+// the value looked up) while the schema is resized, changes type, is deleted and re-added. One-sided exact
+// counting per limiter object: a max-in-flight limiter object never has more requests in flight than the
+// largest limit ever configured; afterwards, with nothing in flight, exactly `final` requests are admitted.
+func runStressFull(c *rig.Ctx, s StressCase, record bool) bool {
+	fail := func(class, what string) bool {
+		if record {
+			report(c, rig.Failure{Kind: "judge", Class: class, What: what, Case: s})
+		}
+		return false
+	}
+	ctl.mu.Lock()
+	defer ctl.mu.Unlock()
+	maxinflight.VerifHook = nil
+	ctx, cancel := context.WithCancel(context.Background())
+	lim := flowcontrols.NewUpstreamLimiter(ctx, "a", "", nil)
+	defer func() {
+		cancel()
+		rig.Recover(func() {
+			for _, fc := range lim.AllFlowControls() {
+				fc.Stop()
+			}
+		})
+	}()
+	hi := 0
+	for _, l := range s.Limits {
+		if l > hi {
+			hi = l
+		}
+	}
+	lim.Sync(stressSpec(s.Limits[0]))
+	var perObj sync.Map // limiter object -> *int64 in flight
+	var worst int64
+	var panics int32
+	var wg sync.WaitGroup
+	stop := make(chan struct{})
+	cfgDone := make(chan struct{})
+	for g := 0; g < s.Goroutines; g++ {
+		wg.Add(1)
+		go func() {
+			defer wg.Done()
+			for i := 0; i < s.Iterations; i++ {
+				_, p := rig.Recover(func() {
+					fc := lim.GetOrDefault("s")
+					isMI := fc.Type() == proxyv1alpha1.MaxRequestsInflight
+					if !fc.TryAcquire() {
+						return
+					}
+					if isMI {
+						v, _ := perObj.LoadOrStore(fc, new(int64))
+						cnt := v.(*int64)
+						n := atomic.AddInt64(cnt, 1)
+						for {
+							w := atomic.LoadInt64(&worst)
+							if n <= w || atomic.CompareAndSwapInt64(&worst, w, n) {
+								break
+							}
+						}
+						if s.Yield {
+							runtime.Gosched()
+						}
+						atomic.AddInt64(cnt, -1)
+					}
+					fc.Release()
+				})
+				if p {
+					atomic.AddInt32(&panics, 1)
+				}
+			}
+		}()
+	}
+	go func() {
+		defer close(cfgDone)
+		for i := 1; ; i++ {
+			select {
+			case <-stop:
+				return
+			default:
+			}
+			lim.Sync(stressSpec(s.Limits[i%len(s.Limits)]))
+			runtime.Gosched()
+		}
+	}()
+	fin := make(chan struct{})
+	go func() { wg.Wait(); close(fin) }()
+	select {
+	case <-fin:
+	case <-time.After(120 * time.Second):
+		close(stop)
+		return fail("c05.stress-hang", "stress goroutines did not finish within 120 s")
+	}
+	close(stop)
+	<-cfgDone
+	if worst > int64(hi) {
+		return fail("c05.stress-over-admission", fmt.Sprintf("%d requests admitted by one max-in-flight limiter object were in flight at once; the limit never exceeded %d", worst, hi))
+	}
+	// quiescent: make it a max-in-flight schema with a final limit and probe exactly. If it was one all
+	// along (resizes only), its counter has been in use the whole time: no slot may be missing.
+	final := hi + 1
+	lim.Sync(stressSpec(final))
+	fc := lim.GetOrDefault("s")
+	got := 0
+	for i := 0; i < final+1; i++ {
+		if fc.TryAcquire() {
+			got++
+		}
+	}
+	if got != final {
+		return fail("c05.stress-capacity", fmt.Sprintf("after all %d goroutines finished, %d of %d probing requests were admitted at limit %d (slots leaked or were returned twice)", s.Goroutines, got, final+1, final))
+	}
+	return true
+}
+
 func genStress(c *rig.Ctx) {
 	n := c.Budget(40, 600)
 	for i := 0; i < n && judgeFailures < 5; i++ {
@@ -523,7 +669,27 @@ func genStress(c *rig.Ctx) {
 		for j := 0; j < k; j++ {
 			s.Limits = append(s.Limits, c.Rng.Intn(5))
 		}
-		c.Case(rig.Canon(s), true, fmt.Sprintf("stress:limits=%d", len(s.Limits)), func() interface{} { return s })
+		if i%2 == 1 {
+			// whole stack; every other case also changes type, deletes and re-adds while requests are in flight
+			s.Full = true
+			if i%4 == 3 {
+				s.Limits = append(s.Limits, -1-c.Rng.Intn(3))
+				c.Rng.Shuffle(len(s.Limits), func(a, b int) { s.Limits[a], s.Limits[b] = s.Limits[b], s.Limits[a] })
+				if s.Limits[0] < 0 {
+					s.Limits = append([]int{1 + c.Rng.Intn(3)}, s.Limits...)
+				}
+			}
+		}
+		b := fmt.Sprintf("stress:limits=%d", len(s.Limits))
+		if s.Full {
+			b = "stress-full-stack"
+			for _, l := range s.Limits {
+				if l < 0 {
+					b = "stress-full-stack+typechanges"
+				}
+			}
+		}
+		c.Case(rig.Canon(s), true, b, func() interface{} { return s })
 		c.Trace()
 		runStress(c, s, true)
 	}
